@@ -314,7 +314,12 @@ func init() {
 		}
 		return unput(fr, "gob", a)
 	}
-	H["google.golang.org/protobuf/proto.Marshal"] = func(fr *frame, a []value) value { return tuple{put("P", a[0]), iface{}} }
+	H["google.golang.org/protobuf/proto.Marshal"] = func(fr *frame, a []value) value {
+		if !protoStringsValid(a[0]) {
+			return tuple{[]value(nil), hostErr(fr, "proto: string field contains invalid UTF-8")}
+		}
+		return tuple{put("P", a[0]), iface{}}
+	}
 	H["google.golang.org/protobuf/proto.Unmarshal"] = func(fr *frame, a []value) value { return unput(fr, "proto", a) }
 	H["google.golang.org/protobuf/proto.Equal"] = func(fr *frame, a []value) value { return deepEqValue(a[0], a[1]) }
 	H["google.golang.org/protobuf/proto.Clone"] = func(fr *frame, a []value) value { return deepCopy(a[0]) }
